@@ -2,19 +2,19 @@
 # Independently confirms a seeded change: the demonstration passes without the patch, fails with it,
 # and the crate's existing tests pass with the patch. Usage: tools/verify_seed.sh <seeded-id> <crate> <demo test filter>
 set -u
-ID=$1; CRATE=$2; FILTER=$3
+ID=$1; CRATE=$2; FILTER=$3; TGT=${4:-/tmp/tgt-seed}
 D=/verif/seeded/$ID
 WT=/tmp/seed-verify
-export CARGO_TARGET_DIR=/tmp/tgt-seed CARGO_NET_OFFLINE=true CARGO_BUILD_JOBS=8
+export CARGO_TARGET_DIR=$TGT CARGO_NET_OFFLINE=true CARGO_BUILD_JOBS=8
 # unique artifact hash for this worktree (several worktrees share the target dir)
 CFG="--config profile.dev.package.$CRATE.codegen-units=197 --config profile.test.package.$CRATE.codegen-units=197"
 if [ ! -d $WT ]; then git -C /repo worktree add --detach $WT HEAD -q; fi
 cd $WT && git checkout -q --detach $(git -C /repo rev-parse HEAD) && git checkout -- . && git clean -fdq
 git apply --whitespace=nowarn $D/demo.diff || { echo "demo.diff does not apply"; exit 2; }
 touch crates/$CRATE/src/lib.rs
-echo "== demo WITHOUT patch"; cargo nextest run $CFG -p $CRATE --lib --offline --no-fail-fast --retries 0 -E "test(/$FILTER/)" 2>&1 | grep -E "PASS|FAIL|Summary|error" | tail -8
+echo "== demo WITHOUT patch"; cargo nextest run $CFG -p $CRATE --offline --no-fail-fast --retries 0 -E "test(/$FILTER/)" 2>&1 | grep -E "PASS|FAIL|Summary|error" | tail -8
 git apply --whitespace=nowarn $D/patch.diff || { echo "patch.diff does not apply"; exit 2; }
 touch crates/$CRATE/src/lib.rs
-echo "== demo WITH patch"; cargo nextest run $CFG -p $CRATE --lib --offline --no-fail-fast --retries 0 -E "test(/$FILTER/)" 2>&1 | grep -E "PASS|FAIL|Summary|error" | tail -8
+echo "== demo WITH patch"; cargo nextest run $CFG -p $CRATE --offline --no-fail-fast --retries 0 -E "test(/$FILTER/)" 2>&1 | grep -E "PASS|FAIL|Summary|error" | tail -8
 echo "== existing suite WITH patch (demo excluded)"; cargo nextest run $CFG -p $CRATE --offline --no-fail-fast --retries 0 -E "not test(/$FILTER/)" 2>&1 | grep -E "^\s+FAIL|Summary|error\[" | sort | uniq | tail -12
 git checkout -- . && git clean -fdq
